@@ -155,4 +155,25 @@ def credFilesOf : List CredsEvent → List CredDoc
   | .file d :: es => d :: credFilesOf es
   | .connect :: es => credFilesOf es
 
+/-- **What a poll of a rule set endpoint means** (declaratively): a complete rule set that rule factory and
+repository take replaces the rules from the endpoint; a complete empty body, a status other than 200 and an endpoint
+that does not answer mean "no rules from this endpoint" (the provider's documented reading of a missing rule set);
+everything else — a body that broke off on the way, bytes that are no rule set, a rule set that is refused — is a
+rejected reload and leaves no trace. -/
+def endpointLoads : Polled → Option (Option (List String))
+  | .body .complete (.ruleSet ids true) => some (some ids)
+  | .body .complete .empty => some none
+  | .unreachable => some none
+  | .status _ => some none
+  | _ => none
+
+/-- the polls of a history whose body broke off -/
+def Polled.brokenOff : Polled → Bool
+  | .body .brokenOff _ => true
+  | _ => false
+
+/-- what `/verif/extract/guards` reads off `startWatching`: the statements that leave the `for { select { … } }` loop
+other than the two "channel closed" returns; the loop of the model leaves on a failed renewal iff there is one -/
+def loopLeaves (exits : List String) : Bool := !exits.isEmpty
+
 end Heimdall.Loaders
